@@ -1,6 +1,6 @@
 SPECIFICATION Spec
 CONSTANTS
-  Datasets = {"exact", "scatter", "mixed"}
+  Datasets = {"exact", "exact10", "scatter", "flat", "mixed"}
   MaxDepth = 3
   LoadShifts <- LoadShiftsMC
   CycleShifts <- CycleShiftsMC
